@@ -183,6 +183,14 @@ impl LspContext {
         test_connection
     }
 
+    /// Verification hook: the in-memory connection that is otherwise only available to the unit tests
+    #[cfg(mos_verif)]
+    pub(crate) fn verif_listen_memory(&mut self) -> Connection {
+        let (connection, test_connection) = Connection::memory();
+        self.connection = Some((Arc::new(connection), None));
+        test_connection
+    }
+
     pub fn add_shutdown_handler(&mut self) -> ShutdownReceiverHandle {
         let (s, r) = crossbeam_channel::bounded(1);
         let handler_id = HANDLER_ID.fetch_add(1, Ordering::Relaxed);
